@@ -17,7 +17,7 @@ def run(ctx):
         progs = progsuite.gen_programs(ctx, 2500 if ctx.tier == 'quick' else 60000, 1 if ctx.tier == 'quick' else 2)
         rnd = random.Random(ctx.seed + 6)
         for src, ast, root, stream in progs:
-            st = rnd.choice(progsuite.STORES) if stream == 'random' and ctx.tier == 'quick' else None
+            st = rnd.choice(progsuite.STORES) if stream in ('random', 'equality') and ctx.tier == 'quick' else None
             for s in ([st] if st else progsuite.STORES):
                 meta[progsuite.prog_case(cases, s, src, rnd.choice(proggen.LOOP_INPUTS if stream == 'loops' else proggen.INPUTS), rnd.choice(progsuite.HOSTS), ast)] = stream
         # reapply loops with iteration counts 0..N: constant depth however often they iterate
@@ -90,16 +90,19 @@ def run(ctx):
                 ctx.fail('oracle', c, impl=impl.get(c[1]), expect='regs=0 vals=1 frames=0', note=f'stacks not back at their initial depths after completion: {src!r}')
             elif pi['depth'] != 'ok':
                 k = 'depth'
-                ctx.fail('oracle', c, impl=impl.get(c[1]), expect='depth=ok', note=f'pending-operand count differs by path, is negative, or is not 1 where an expression ends: {src!r}')
+                ctx.fail('oracle', c, impl=impl.get(c[1]), expect='depth=ok', note=f'pending-operand count differs by path, is negative, or is not 1 where an expression ends, or the input-value stack dropped below its initial depth ({pi["depth"]}): {src!r}')
             if meta.get(c[1], '').startswith('reapply-'):
                 loops.setdefault(c[2], []).append((int(meta[c[1]].split('-')[1]), pi['steps']))
         elif pi['kind'] == 'runerr' and re.search(r'No references in register|Not enough register', pi.get('msg', '') or impl.get(c[1], '')):
             k = 'underflow'
             ctx.fail('oracle', c, impl=impl.get(c[1]), expect='operands present', note=f'the VM ran out of pending operands (operand depth would drop below zero): {src!r}')
+        elif pi['kind'] in ('runerr', 'steplimit') and meta.get(c[1], '').startswith('reapply-'):
+            k = 'loop-incomplete'
+            ctx.fail('oracle', c, impl=impl.get(c[1]), expect='ok', note=f'a reapply loop of {meta[c[1]].split("-")[1]} iterations did not run to completion ({pi["kind"]}): {src!r}')
         elif pi['kind'] in ('runerr', 'steplimit'):
             if pi['depth'] != 'ok':
                 k = 'depth'
-                ctx.fail('oracle', c, impl=impl.get(c[1]), expect='depth=ok', note=f'pending-operand count differs by path / negative / not 1 at an expression end (run ended with {pi["kind"]}): {src!r}')
+                ctx.fail('oracle', c, impl=impl.get(c[1]), expect='depth=ok', note=f'pending-operand count differs by path / negative / not 1 at an expression end, or the input-value stack dropped below its initial depth ({pi["depth"]}; run ended with {pi["kind"]}): {src!r}')
         elif pi['kind'] in ('PANIC', 'HANG', 'ABORT', 'missing'):
             ctx.fail('oracle', c, impl=impl.get(c[1]), expect='a result', note=f'{pi["kind"]} while running {src!r}')
         stats[k] = stats.get(k, 0) + 1
@@ -125,8 +128,8 @@ def run(ctx):
                 ctx.fail('oracle', c, impl=ri, model=rm, expect=f'regs={b[0]} vals={b[1]} frames={b[2]}', note=f'the {c[3]} instruction on {c[2]} changes the stacks by regs={a[0]} vals={a[1]} frames={a[2]}; its arity is regs={b[0]} vals={b[1]} frames={b[2]}')
         stats['OP arity comparisons'] = nar
         ctx.evaluations += len(ocases)
-    ctx.rule = ('RUN/PROG cases: generated core-language programs (small-exhaustive + random, no bare `;;`) on both stores with a per-step monitor in the harness: operand count relative to the frame base recorded per instruction address (conflict = two paths reach it with different depths), never negative, exactly 1 when EndExpression executes; '
-                'on completion registers, input-value stack and frame chain back at their initial depths; the verified abstract interpretation absDepth is run on every built instruction stream (all paths) and every observed (address, depth) pair must equal its result; reapply loops with iteration counts 0..N; the stack deltas of every single instruction on every operand type pair (OP matrix) against the model`s arity; distinct = distinct (source, store).')
+    ctx.rule = ('RUN/PROG cases: generated core-language programs (small-exhaustive + random, no bare `;;`) on both stores with a per-step monitor in the harness: operand count relative to the frame base recorded per instruction address (conflict = two paths reach it with different depths), never negative, exactly 1 when EndExpression executes; the input-value stack never shorter than at the start; '
+                'on completion registers, input-value stack and frame chain back at their initial depths; the verified abstract interpretation absDepth is run on every built instruction stream (all paths) and every observed (address, depth) pair must equal its result; reapply loops with iteration counts 0..N (must complete, in steps linear in N); the stack deltas of every single instruction on every operand type pair (OP matrix) against the model`s arity; distinct = distinct (source, store).')
     ctx.suites = {'RUN': len(cases), 'outcomes': stats}
     if progs:
         ctx.distribution = progsuite.feature_distribution(progs)
